@@ -1178,7 +1178,7 @@ def server_session_witness(ctx):
     sched = ctx.index.func("gwf.backends.local:Scheduler.enqueue_task")
     params = sched.positional_params()[1:]
     msg = {"name": "N", "script": "S", "working_dir": "/w", "time_limit": 5, "deps": [1, 2]}
-    reqs = [dict(msg, __kind__="enqueue_task"), {"__kind__": "get_task_states"}, {"__kind__": "cancel_task", "tid": 7}, {"__kind__": "close"}]
+    reqs = [dict(msg, __kind__="enqueue_task"), {"__kind__": "get_task_states"}, {"__kind__": "cancel_task", "tid": 7}, {"__kind__": "get_task_state", "tid": 7}, {"__kind__": "close"}]
     out, hc = eval_server_session(ctx, reqs)
     if out["ended"].startswith("unsupported"):
         return n, diffs, out["ended"]
@@ -1214,6 +1214,8 @@ def server_session_witness(ctx):
         diffs.append(f"the id returned by the scheduler (101) is not what the client is told: responses {resp[:2]}")
     if ("task_states", {"tasks": {101: "STATE_101"}}) not in resp:
         diffs.append(f"a state query is not answered with the scheduler's state table: responses {resp}")
+    if not any(k == "task_state" and kw.get("state") == "STATE_OF_7" for k, kw in resp):
+        diffs.append(f"a query for the state of task 7 is not answered with that task's state: responses {[x for x in resp if x[0] == 'task_state']}")
     if len([c for c in out["calls"] if c[0] == "write"]) != len(resp):
         diffs.append("a response is built but not written to the connection")
     if out["ended"] != "return" or out["reads"] != len(reqs):
@@ -1285,6 +1287,18 @@ def eval_local_client(ctx):
         out["cancel"] = f"<{type(exc).__name__}: {exc}>"
     out["cancel_sent"] = list(sent)
     out["cancel_io"] = list(flushed)
+    # the state query: one get_task_states request, the reply's names decoded to LocalStatus members
+    del sent[:], flushed[:]
+    answers.append(_json.dumps({"__kind__": "task_states", "tasks": {"0": "RUNNING", "3": "FAILED"}}) + "\n")
+    st_m = idx.method(cl_ci, "status")
+    try:
+        out["status"] = interp.call(st_m, (), {}, self_obj=client) if st_m is not None else Ellipsis
+    except Raised as exc:
+        out["status"] = f"<raises {exc.kind}: {exc.detail[:60]}>"
+    except Unsupported as exc:
+        out["status"] = Ellipsis
+    out["status_sent"] = list(sent)
+    out["status_io"] = list(flushed)
     return out
 
 
@@ -1311,7 +1325,15 @@ def local_client_witness(ctx):
     cs = out["cancel_sent"]
     if cs != [("cancel_task", {"tid": 0})]:
         diffs.append(f"cancelling job 0 (the pool's first task) sends {cs}; expected one cancel_task with tid=0")
-    return 2, diffs, None
+    if out.get("status") is not Ellipsis:
+        L = lambda n_: EnumVal("gwf.backends.local.LocalStatus", n_)
+        st = out["status"]
+        if out["status_sent"] != [("get_task_states", {})] or [e[0] for e in out["status_io"]] != ["write", "flush"]:
+            diffs.append(f"a state query sends {out['status_sent']} (io {[e[0] for e in out['status_io']]}); expected one get_task_states request, written and flushed - otherwise "
+                         "the client waits for an answer to a question it never asked")
+        elif not isinstance(st, dict) or {str(k): v for k, v in st.items()} != {"0": L("RUNNING"), "3": L("FAILED")}:
+            diffs.append(f"the pool answers task_states {{'0': 'RUNNING', '3': 'FAILED'}} but Client.status() gives {st}: each task's state must come back under its own id")
+    return 3, diffs, None
 
 
 def eval_enqueue(ctx):
@@ -2455,6 +2477,13 @@ def task_coroutine_witness(ctx):
             base, err = eval_task(ctx, deps=deps)
             if err:
                 raise Unsupported(err)
+            # positive control of the evaluation itself: it must suspend at least once WHILE the task's process runs (after the spawn, before the logs are written),
+            # otherwise no cancellation is ever delivered there and an agreeing evaluation would prove nothing about the cancel path
+            ev0 = [e[0] for e in base["events"]]
+            if "spawn" in ev0:
+                probe = [eval_task(ctx, deps=deps, cancel_at=k)[0] for k in range(1, base["awaits"] + 1)]
+                if not any(p_ and "spawn" in [e[0] for e in p_["events"]] and any(e[0] == "cancel-delivered" for e in p_["events"]) for p_ in probe):
+                    raise Unsupported("the evaluation delivers no cancellation while the task's process runs (no suspension point recognised between spawn and exit)")
             for k in range(1, base["awaits"] + 1):
                 label = f"cancelled at await #{k} (`{base['await_log'][k - 1]}`){' with a dependency' if deps else ''}"
                 out = run(label, deps=deps, cancel_at=k)
